@@ -10,6 +10,7 @@ import (
 	"io"
 	"runtime"
 	"strconv"
+	"strings"
 	"sync"
 	"time"
 
@@ -162,6 +163,9 @@ func (m *Manager) CreateTable(name string) (Table, error) {
 }
 
 func (m *Manager) createTable(name string) (Table, error) {
+	if !validTableName(name) {
+		return Table{}, serrors.ErrInvalidTableName
+	}
 	storeName := storedTableName(name)
 	exists, err := m.store.Exists(storeName)
 	if err != nil {
@@ -191,6 +195,9 @@ func (m *Manager) createTable(name string) (Table, error) {
 func (m *Manager) DeleteTable(name string) error {
 	m.mtx.Lock()
 	defer m.mtx.Unlock()
+	if !validTableName(name) {
+		return serrors.ErrInvalidTableName
+	}
 	storeName := storedTableName(name)
 	tab, err := m.store.Get(storeName)
 	if err != nil {
@@ -201,6 +208,11 @@ func (m *Manager) DeleteTable(name string) error {
 	}
 
 	return m.store.Delete(storeName, tab.Ver)
+}
+
+// validTableName tells whether the name can be used as a single path element of the metadata store key.
+func validTableName(name string) bool {
+	return name != "" && !strings.Contains(name, "/")
 }
 
 func storedTableName(name string) string {
@@ -518,6 +530,9 @@ func (m *Manager) stopTable(clusterID uint64) error {
 }
 
 func (m *Manager) Restore(name string, reader io.Reader) error {
+	if !validTableName(name) {
+		return serrors.ErrInvalidTableName
+	}
 	tbl, version, err := m.getTableVersion(name)
 	if err != nil && !errors.Is(err, serrors.ErrTableNotFound) {
 		return err
